@@ -19,7 +19,8 @@
 #include "C14/stubs/ports_stub.h"
 #include "sugar.h"                  /* collaborator contracts + recorder */
 #include "clamp_spec.h"
-using rtosc::enum_key;              /* the real code finds it by argument-dependent lookup (not in CBMC) */
+using rtosc::enum_key;              /* the real code finds these by argument-dependent lookup (not in CBMC) */
+using rtosc::enum_key_from_msg;
 
 #include <rtosc/port-sugar.h>       /* THE REAL HEADER */
 #include "c14_boil.h"               /* generated: #undef rBOIL_BEGIN + the header's own prologue as a function header */
